@@ -87,6 +87,16 @@ def special_forms():
     out.append(("from-file-bad-extension-error", gen.simple_form([("select_one_from_file cities.txt", "c", {"label": "C"})]), {}))
     # both id headers: the converter drops one of them - from its own copy, not from the caller's workbook
     out.append(("both-id-headers", gen.simple_form([("text", "q", {"label": "Q"})], settings={"id_string": "ids", "form_id": "fid", "form_title": "t"}), {}))
+    # legacy columns/settings that the converter consumes destructively (row.pop, rewriting the value in place): on its own copy, never in the caller's workbook
+    out.append(("disabled-column", gen.simple_form([("text", "on", {"label": "On", "disabled": "no"}), ("text", "off", {"label": "Off", "disabled": "yes"}), ("text", "q", {"label": "Q"})]), {}))
+    out.append(("add-none-option", gen.simple_form([("select_multiple l1", "s", {"label": "S"}), ("text", "q", {"label": "Q"})], choices={"l1": [{"name": "a", "label": "A"}, {"name": "b", "label": "B"}]},
+                                                   settings={"add_none_option": "yes", "form_id": "ano"}), {}))
+    out.append(("omit-instance-id+both-ids", gen.simple_form([("text", "q", {"label": "Q"})], settings={"omit_instanceID": "yes", "id_string": "ids", "form_id": "fid"}), {}))
+    # a refusal whose message lists several questions (collected in sets): same text in every process
+    trs = {"label::en": "S", "label::fr": "S"}
+    out.append(("refusal-naming-several-questions", gen.simple_form(
+        [("select_one l1", "s1", dict(trs, appearance="search('f')"))] + [("select_one l1", f"plain_{w}", dict(trs)) for w in ("alpha", "bravo", "charlie", "delta", "echo")] +
+        [("select_one l1", "s9", dict(trs, appearance="search('g')"))], choices={"l1": [{"name": "a", "label::en": "A", "label::fr": "A"}]}), {}))
     # confusable neighbours for anything memoised per language label / subtag: same subtag in another letter case, padded, unknown
     for v, lang in enumerate(["French (fr)", "French (FR)", "French ( fr )", "Fr (Fr)", "Klingon (tlh)", "Klingon (TLH)", "xx (zz)", "XX (ZZ)"]):
         out.append((f"language-label-{v}", gen.simple_form([("text", "q", {f"label::{lang}": "L", f"hint::{lang}": "H"})], settings={"form_id": "lang"}), {}))
@@ -116,6 +126,10 @@ def late_failing_forms():
     ch = {"l1": [{"name": "a", "label::en": "A", "label::fr": "A"}, {"name": "b", "label::en": "B", "label::fr": "B"}]}
     out = []
     out.append(("search-and-plain-share-list", gen.simple_form([("select_one l1", "s1", dict(tr, appearance="search('f')")), ("select_one l1", "s2", dict(tr))], choices=ch)))
+    # the refusal names the other users of the list: several of them, so that any unordered collection behind the message shows across hash seeds
+    out.append(("search-and-five-plain-share-list", gen.simple_form([("select_one l1", "s1", dict(tr, appearance="search('f')"))] +
+                                                                    [("select_one l1", f"plain_{w}", dict(tr)) for w in ("alpha", "bravo", "charlie", "delta", "echo")] +
+                                                                    [("select_one l1", "s9", dict(tr, appearance="search('g')"))], choices=ch)))
     out.append(("search-on-select-from-file", gen.simple_form([("select_one_from_file c.csv", "s1", dict(tr, appearance="search('f')")), ("text", "t", dict(tr))], choices=ch)))
     out.append(("unknown-reference-in-label", gen.simple_form([("text", "t", {"label::en": "x ${nosuch}", "label::fr": "y"}), ("select_one l1", "s2", dict(tr))], choices=ch)))
     out.append(("unknown-reference-in-choice-label", gen.simple_form([("select_one l1", "s2", dict(tr))],
